@@ -49,7 +49,10 @@ def impl_case(case):
         bio = a.to_biopython_location() if a.strand in (-1, 0, 1) and 0 <= a.start <= a.end else None
         d4 = Location.from_data(bio) if bio is not None else None
         d5 = Location.from_biopython_location(bio) if bio is not None else None
-        return (tuple(t), tup(back), tup(two), tup(d1), tup(d2), tup(d3), tup(d4), tup(d5), d2 is a)
+        # default_strand only applies to 2-tuples; an explicit strand (0 included) is kept
+        ds = tuple((d, tup(Location.from_tuple(t, default_strand=d)), tup(Location.from_tuple(t[:2], default_strand=d)))
+                   for d in (0, 1, -1))
+        return (tuple(t), tup(back), tup(two), tup(d1), tup(d2), tup(d3), tup(d4), tup(d5), d2 is a, ds)
     if kind == "windows":
         r = windows_overlap(case[1], case[2])
         return None if r is None else tuple(r)
@@ -126,7 +129,12 @@ def oracle(case, out):
             return "indices wrong"
     elif kind == "tuple":
         a = case[1]
-        t, back, two, d1, d2, d3, d4, d5, same = out
+        t, back, two, d1, d2, d3, d4, d5, same, ds = out
+        for d, t3, t2 in ds:
+            if t3 != a:
+                return "from_tuple(%r, default_strand=%d) = %r: the explicit strand was not kept" % (a, d, t3)
+            if t2 != (a[0], a[1], d):
+                return "from_tuple(%r, default_strand=%d) = %r" % (a[:2], d, t2)
         if t != a or back != a or d1 != a or d2 != a or d3 != a:
             return "tuple conversions inconsistent: %r" % (out,)
         if two != (a[0], a[1], 0):
